@@ -2,3 +2,4 @@
 import RainModel.Model.Blocks
 import RainModel.Model.STree
 import RainModel.Model.Blocklist
+import RainModel.Model.AddrList
